@@ -119,7 +119,25 @@ def generate(rng, tier):
             extra_roots = [os.path.join(os.path.dirname(root_arg), "twin_root.rs")]
     elif k < 18:
         extra_roots = [root_arg]
-    twin_first = bool(extra_roots) and rng.chance(40)
+    elif k < 26:
+        # a module file named as an input of its own after its root: as a module it is formatted under the root's
+        # crate-level attributes, as an input without them -- the second pass sees the first one's output
+        rd = os.path.dirname(t.root)
+        mv = os.path.join(rd, "p_mv.rs")
+        if mv not in files:
+            files[mv] = "fn  mv( ){let v=vec![ 1,2 ];}\n"
+            rt = files[t.root]
+            bom = "\ufeff" if rt.startswith("\ufeff") else ""
+            files[t.root] = bom + "#![rustfmt::skip::macros(vec)]\nmod p_mv;\n" + rt.lstrip("\ufeff")
+            srcs += [mv]
+            extra_roots = [os.path.join(os.path.dirname(root_arg), "p_mv.rs")]
+    elif k < 32:
+        # a text that needs two passes to settle (leading blank line + indented item), in a run that visits it twice
+        f0 = rng.choice(srcs)
+        if isinstance(files[f0], str) and not files[f0].startswith("\ufeff") and f0 not in linked:
+            files[f0] = "\n fn  lead( ){ }\n" + files[f0]
+            extra_roots = [root_arg]
+    twin_first = bool(extra_roots) and k < 18 and rng.chance(40)
     extra_args = rng.choice([[], [], ["-q"], ["--config", "max_width=%d" % rng.choice([60, 80, 100])]])
     return {
         "world": {"files": files},
@@ -192,6 +210,18 @@ def execute(case):
             v.probe("history:format-edit-format")
         linked = case.get("linked") or {}
         orig = {f: core.file_bytes(world["files"][linked.get(f, f)]) for f in srcs}
+        # with several inputs a file can be rewritten by an earlier input and again by a later one: the text after the
+        # first of them is a complete formatted text too
+        fmt_alt = {}
+        if case.get("extra_roots"):
+            c1 = dict(case, extra_roots=[], twin_first=False)
+            if case.get("twin_first"):
+                c1["root_arg"] = case["extra_roots"][0]
+            sc.fresh_world(world)
+            r1 = core.run_inv(sc, _inv(c1, backup=False))
+            v.account(r1, nontrivial=False)
+            if r1.exit == 0:
+                fmt_alt = {f: core.read_rel(sc.root, f) for f in srcs}
         if linked:
             v.probe("symlinked-module-file")
         R = [f for f in srcs if orig[f] != fmt[f]]
@@ -216,7 +246,7 @@ def execute(case):
                 suffix = "|stem-collision" if f in collide else "|respelled-twice" if f in respelled else ""
                 if cur != orig[f] and bk != orig[f]:
                     v.add("C20:original-lost" + suffix, "%s: neither %s nor its .bk holds the original; %s" % (tag, f, det), file=f)
-                if cur is not None and cur not in (orig[f], fmt[f]):
+                if cur is not None and cur not in (orig[f], fmt[f], fmt_alt.get(f, fmt[f])):
                     v.add("C20:partial-or-foreign-content" + suffix, "%s: %s holds neither original nor formatted text; %s" % (tag, f, det), file=f)
                 if cur is None and bk != orig[f]:
                     pass  # covered by original-lost
